@@ -47,7 +47,7 @@ func ruleR5(p *Prog) []Ob {
 	}
 	// (a) every increment happens under messagesMu and on a path that returns the non-nil reader
 	{
-		ob := Ob{Rule: "R5", Inst: "a:increment-under-lock:" + funcLabel(getter), Props: props, Pos: p.posStr(getter.Pos()), Func: funcLabel(getter), Nontrivial: true}
+		ob := Ob{Rule: "R5", Inst: "a:increment-under-lock:" + funcLabel(getter), Props: append(append([]string{}, props...), "C04", "C03"), Pos: p.posStr(getter.Pos()), Func: funcLabel(getter), Nontrivial: true}
 		var bad []string
 		n := 0
 		for _, fn := range p.Funcs {
